@@ -4,7 +4,7 @@ Open Scope Z_scope.
 
 Definition mf (name ctype data : bytes) : mfile := Build_mfile name ctype data.
 Definition fm (vs : list (bytes * list bytes)) (fs : list (bytes * list mfile)) : mform := Build_mform vs fs.
-Definition rq (mp clpos : bool) (files : list Z) (wf : bool) : reqd := Build_reqd mp clpos files wf.
+Definition rq (mp clpos : bool) (files : list Z) (wf : bool) (len close : Z) : reqd := Build_reqd mp clpos files wf len close.
 Definition sc (stream preparse : bool) : scfg := Build_scfg stream preparse.
 
 Inductive c35case :=
